@@ -180,6 +180,10 @@ def check_query(q, funcs, enums, tier, logdir):
                 # branch (e.g. discriminant of an Option outside {0,1}); such paths are infeasible
                 continue
             elif p.outcome == "untranslatable":
+                if q.get("ignore_untranslatable") and re.search(q["ignore_untranslatable"], p.detail or ""):
+                    # stated bound of the query: paths that enter this construct (e.g. a loop) are outside the claim
+                    res["paths_outside_bound"] = res.get("paths_outside_bound", 0) + 1
+                    continue
                 items.append((i, p, None))
             elif p.outcome == "panic":
                 allowed = q.get("allowed_panics")
